@@ -376,7 +376,10 @@ func c17Factory(cat []c17Proto) (*mechanismsFactory, error) {
 		}
 	}
 
-	f, err := NewMechanismFactory(&config.Configuration{Prototypes: p}, c17Logger, c17Watcher{}, &c17Registry{}, &c17Observer{})
+	w := &c17Watcher{}
+	c17LastWatcher = w
+
+	f, err := NewMechanismFactory(&config.Configuration{Prototypes: p}, c17Logger, w, &c17Registry{}, &c17Observer{})
 	if err != nil {
 		return nil, err
 	}
@@ -571,7 +574,7 @@ func (rn *c17Runner) solo(origin int, chain []map[string]any) *c17Solo {
 func (rn *c17Runner) fill(s *c17Solo, kind string, m any, origin int) {
 	s.ok = true
 	s.view = rn.viewOf(m, origin)
-	s.raw = c17Exec(kind, m, rn.c.Variant)
+	s.raw = "acc{" + c17Accessors(kind, m) + "} " + c17Exec(kind, m, rn.c.Variant)
 	s.digest = rn.sid(s.raw)
 	s.out = rn.sid("out:" + c17Outcome(s.raw))
 
@@ -932,7 +935,7 @@ func (rn *c17Runner) run() (obs map[string]any, coq string, tags []string, nontr
 			steps = append(steps, st)
 		case "exec":
 			x := op.I % len(insts)
-			raw := c17Exec(insts[x].kind, insts[x].m, c.Variant)
+			raw := "acc{" + c17Accessors(insts[x].kind, insts[x].m) + "} " + c17Exec(insts[x].kind, insts[x].m, c.Variant)
 			st := c17Step{Op: fmt.Sprintf("exec %d", x), Beh: rn.sid(raw)}
 
 			if strings.HasPrefix(raw, "PANIC") {
@@ -957,7 +960,7 @@ func (rn *c17Runner) run() (obs map[string]any, coq string, tags []string, nontr
 			}
 			shared := &c17Cache{keep: map[string][]byte{}}
 			c17ExecWith(insts[x].kind, insts[x].m, c.Variant, shared)
-			raw := c17ExecWith(insts[y].kind, insts[y].m, c.Variant, shared)
+			raw := "acc{" + c17Accessors(insts[y].kind, insts[y].m) + "} " + c17ExecWith(insts[y].kind, insts[y].m, c.Variant, shared)
 			st := c17Step{Op: fmt.Sprintf("cross %d %d", x, y), Beh: rn.sid("out:" + c17Outcome(raw))}
 
 			if strings.HasPrefix(raw, "PANIC") {
@@ -1028,7 +1031,7 @@ func (rn *c17Runner) run() (obs map[string]any, coq string, tags []string, nontr
 	okExec, failExec := false, false
 
 	for raw := range rn.istr {
-		if strings.HasPrefix(raw, "err=ok") {
+		if strings.Contains(raw, "} err=ok") || strings.HasPrefix(raw, "out:") {
 			okExec = true
 		} else {
 			failExec = true
@@ -1187,6 +1190,7 @@ func TestVerifC17(t *testing.T) {
 // ---------------------------------------------------------------- stream 2: race detector
 
 type c17RaceObs struct {
+	note string
 	Races   int      `json:"races"`
 	Crashed string   `json:"crashed,omitempty"`
 	Changed int      `json:"changed"`
@@ -1203,6 +1207,8 @@ func c17RaceRun(c c17Case) (changed int, note string) {
 		return 0, "catalogue rejected: " + err.Error()
 	}
 
+	wt := c17LastWatcher
+
 	var insts []*c17Inst
 
 	for i, p := range c.Cat {
@@ -1212,6 +1218,9 @@ func c17RaceRun(c c17Case) (changed int, note string) {
 		}
 
 		insts = append(insts, &c17Inst{kind: p.Kind, m: pm, origin: i})
+
+		tn, _, _, _ := c17Fields(pm)
+		note += "types=" + tn + ";"
 	}
 
 	var late []c17Op
@@ -1259,6 +1268,10 @@ func c17RaceRun(c c17Case) (changed int, note string) {
 				in := insts[(g+it)%len(insts)]
 
 				switch {
+				case g < 2 && it == 1 && wt != nil:
+					// secrets reload (key store of a signer) while requests are being served
+					wt.fire()
+					c17ExecWith(in.kind, in.m, c.Variant, shared)
 				case g >= c17Goroutines-2 && len(late) > 0:
 					op := late[(g+it)%len(late)]
 					if nm, err := c17Create(f, insts[op.Src].kind, fmt.Sprintf("p%d", op.Src), op.Ovr); err == nil && nm != nil {
@@ -1383,6 +1396,7 @@ func TestVerifC17Race(t *testing.T) {
 	cases := c17RaceCases(n)
 	dir := t.TempDir()
 	res := map[int]*c17RaceObs{}
+	attempts, notRepro := map[int]int{}, map[int]string{}
 
 	for from := 0; from < n; {
 		logBase := filepath.Join(dir, fmt.Sprintf("race_%d", from))
@@ -1433,6 +1447,9 @@ func TestVerifC17Race(t *testing.T) {
 				nw := lg[seen:]
 				seen = len(lg)
 				res[i] = &c17RaceObs{Races: strings.Count(nw, "WARNING: DATA RACE"), Changed: ch, Where: c17RaceWhere(nw)}
+				if len(fs) > 3 {
+					res[i].note = fs[3]
+				}
 				last, cur = i, -1
 			}
 		}
@@ -1454,7 +1471,22 @@ func TestVerifC17Race(t *testing.T) {
 				}
 			}
 
-			res[cur] = &c17RaceObs{Races: strings.Count(txt, "WARNING: DATA RACE"), Crashed: first, Where: c17RaceWhere(txt)}
+			o := &c17RaceObs{Races: strings.Count(txt, "WARNING: DATA RACE"), Crashed: first, Where: c17RaceWhere(txt)}
+
+			// a runtime crash that is neither a detected race nor a concurrent map access (e.g. "found bad pointer in Go
+			// heap", seen once in ~40 runs on the unchanged tree, inside a dependency using unsafe) is reported only if
+			// it happens again when the case is repeated in a fresh process
+			if o.Races == 0 && !strings.Contains(first, "concurrent map") {
+				attempts[cur]++
+				if attempts[cur] < 3 {
+					notRepro[cur] = first
+					from = cur
+
+					continue
+				}
+			}
+
+			res[cur] = o
 			from = cur + 1
 
 			continue
@@ -1478,6 +1510,12 @@ func TestVerifC17Race(t *testing.T) {
 
 		c := cases[i]
 		tags := []string{"type:" + c.Cat[0].GoType, fmt.Sprintf("catalogue:%d", len(c.Cat))}
+
+		if msg, ok := notRepro[i]; ok && o.Crashed == "" {
+			tags = append(tags, "crash-not-reproduced")
+			o.Where = append(o.Where, "not reproduced on repetition: "+msg)
+		}
+
 		verdict := "RaceFree"
 
 		switch {
@@ -1493,8 +1531,17 @@ func TestVerifC17Race(t *testing.T) {
 		}
 
 		var types []string
-		for _, p := range c.Cat {
-			types = append(types, vf.CoqStr(p.GoType))
+
+		for _, part := range strings.Split(o.note, ";") {
+			if tn, ok := strings.CutPrefix(part, "types="); ok {
+				types = append(types, vf.CoqStr(tn)) // Go type by reflection, as the child saw it
+			}
+		}
+
+		if len(types) == 0 {
+			for _, p := range c.Cat {
+				types = append(types, vf.CoqStr(p.GoType))
+			}
 		}
 
 		w.Put(vf.Obs{I: i, Stream: "race", In: c, Out: o, Nontrivial: true, Tags: tags,
